@@ -24,6 +24,11 @@ type Network struct {
 	freeMap        map[int]struct{}
 	minimizeOption MinimizeOption
 	maximumSpeed   float64 // The maximum speed traveled on any link in the network.
+	// heuristicScale is the largest factor <= 1 by which the straight-line
+	// distance between the end nodes of every link can be multiplied without
+	// exceeding the length of the link. It is < 1 only when an end vertex of
+	// a link is near, but not at, the node it was identified with.
+	heuristicScale float64
 }
 
 // NewNetwork initializes a new Network where m determines how to choose
@@ -36,6 +41,7 @@ func NewNetwork(m MinimizeOption) *Network {
 		nodes:          rtree.NewTree(25, 50),
 		edges:          rtree.NewTree(25, 50),
 		minimizeOption: m,
+		heuristicScale: 1,
 	}
 }
 
@@ -174,6 +180,11 @@ func (net *Network) AddLink(l geom.LineString, speed float64) {
 	net.edges.Insert(e)
 	net.neighbors[fid][tid] = e
 	net.neighbors[tid][fid] = e
+	// Keep the cost heuristic consistent: it must not exceed the length of
+	// any link for the link's two end nodes.
+	if nd := op.Distance(from.Point, to.Point); nd > 0 && length/nd < net.heuristicScale {
+		net.heuristicScale = length / nd
+	}
 }
 
 // Weight returns the weight (travel time or distance, depending on the
@@ -276,7 +287,7 @@ func (net Network) ShortestRoute(from, to geom.Point) (
 // costHeuristic provides a cost estimate this is guaranteed to be equal
 // to or less than the actual cost.
 func (net *Network) costHeuristic(x, y graph.Node) float64 {
-	distance := op.Distance(x.(*node).Point, y.(*node).Point)
+	distance := op.Distance(x.(*node).Point, y.(*node).Point) * net.heuristicScale
 	switch net.minimizeOption {
 	// If we're optimizing by time, use the maximum speed to calculate
 	// the time to ensure the heuristic is less than the actual value.
